@@ -33,7 +33,7 @@ def families(tier, seed):
             for vec in (False, True):
                 out.append(dict(tag=f"{tag}/two-stage", features=dict(feats, dt=0.1, two_stage=True), kind="two_stage", model=model, T=2.0, dt=0.1, vec=vec,
                                 only_vars=feats.get("only_vars")))
-    for b in ("torch", "jax"):
+    for b in ("torch", "jax", "fortran"):       # (fortran: its 1-based index conversion of the ring-buffer write / read slots)
         for form in ("scalar", "connectivity"):
             out.append(dict(tag=f"delayed-edges/{form}/0/{b}", features=dict(backend=b, delayed_edges=form), kind="delayed_edges_backend", backend=b,
                             form=form, order=0))
